@@ -53,6 +53,21 @@ type inlineFrame struct {
 
 var inlineFrames = map[*ast.BlockStmt]*inlineFrame{}
 
+// funcParamBinds: function-typed parameter of a spliced-in helper → the argument it is bound to (nil when the
+// helper's shared body is bound differently at several call sites).
+var funcParamBinds = map[types.Object]ast.Expr{}
+
+// funcValueOf: the function-valued argument a function-typed parameter of a spliced-in helper stands for: while a
+// frame is being enumerated its own binding, otherwise the binding when it is the same everywhere.
+func funcValueOf(o types.Object) ast.Expr {
+	for i := len(curFrames) - 1; i >= 0; i-- {
+		if a, ok := curFrames[i].Binds[o]; ok {
+			return a
+		}
+	}
+	return funcParamBinds[o]
+}
+
 // framesIn lists the frames spliced into fd.
 func framesIn(fd *ast.FuncDecl) []*inlineFrame {
 	var frames []*inlineFrame
@@ -244,6 +259,13 @@ func virtualInline(p *Prog) int {
 				fr.Binds = map[types.Object]ast.Expr{}
 			}
 			fr.Binds[obj] = arg
+			if _, isSig := obj.Type().Underlying().(*types.Signature); isSig {
+				if prev, seen := funcParamBinds[obj]; seen && prev != arg {
+					funcParamBinds[obj] = nil // bound differently at several call sites (shared body): only decided while enumerating a frame
+				} else if !seen {
+					funcParamBinds[obj] = arg
+				}
+			}
 			list = append(list, &ast.AssignStmt{Lhs: []ast.Expr{id}, Tok: token.DEFINE, TokPos: call.Pos(), Rhs: []ast.Expr{arg}})
 		}
 		if fd.Recv != nil && len(fd.Recv.List) == 1 && len(fd.Recv.List[0].Names) == 1 {
